@@ -14,9 +14,29 @@ def mk(size, op, timeout=600):
                             "non-empty strings at any rotation (including wrapped ones), arbitrary non-NUL bytes"))
 
 
+HQ = "harness/c20_queue.c"
+QOPS = {1: "SCPI_ErrorPushEx(any code, text of length 0..size+1, length 0..size+1) incl. queue overflow", 2: "SYST:ERR? (pop, print, release)", 3: "SCPI_ErrorClear"}
+QSRCS = ["error.c", "fifo.c", "minimal.c", "parser.c", "ieee488.c", "utils.c", "lexer.c", "units.c"]
+
+
+def mkq(size, cap, op, timeout=900):
+    us = {"strnpbrk.0": 3, "strnpbrk.1": size + 3, "strlen.0": size + 3, "SCPI_ResultError.0": size + 2, "SCPI_ResultError.1": 5,
+          "SCPI_RegSet.0": 4, "SCPI_ErrorPushEx.0": 10}
+    return Case("queue-size%02d-cap%d-op%d" % (size, cap, op), HQ, QSRCS, defs=["-DSIZE=%d" % size, "-DCAP=%d" % cap, "-DOP=%d" % op], config=CFG,
+                unwind=size + 4, unwindset=us, flags=["--no-array-field-sensitivity"], remove_bodies=["UInt32ToStrBaseSign", "SCPI_ErrorTranslate"],
+                gen_bodies=["UInt32ToStrBaseSign"], link_stubs=["SCPI_ErrorTranslate"], timeout=timeout, mem_est=4,
+                functions=["SCPI_ErrorPushEx", "SCPI_ErrorAddInternal", "SCPI_SystemErrorNextQ", "SCPI_ErrorPop", "SCPI_ErrorClear", "SCPI_ResultError",
+                           "scpiheap_strndup", "scpiheap_get_parts", "scpiheap_free", "fifo_add", "fifo_remove", "fifo_remove_last"],
+                stubs=["strnlen (exact model)", "UInt32ToStrBaseSign body removed", "SCPI_ErrorTranslate replaced by a one-description stub"],
+                bounds=dict(heap_size=size, queue_capacity=cap, operation=QOPS[op], pre_state="every consistent (queue, heap) state: any fill level and "
+                            "read index, each entry with or without text, the texts being the heap's 0..3 live strings at any rotation"))
+
+
 def cases(tier):
     sizes = (2, 3, 5, 8) if tier == "quick" else range(2, 13)
     cs = [mk(s, op, 600 if tier == "quick" else 2400) for s in sizes for op in sorted(OPS)]
+    qs = ((5, 2), (6, 1), (4, 3)) if tier == "quick" else ((5, 2), (6, 1), (4, 3), (8, 2), (7, 3), (12, 2), (3, 1))
+    cs += [mkq(sz, cap, op, 900 if tier == "quick" else 3000) for (sz, cap) in qs for op in (1, 2, 3)]
     return cs
 
 
